@@ -130,8 +130,9 @@ package csync
 //                     finished its critical section (owned by that invocation)
 // RWMutex ghost fields (guarded): wowner (write holder), readers (set of read holders), waiters (set of
 // registered waiting writers). R1..R3 give "one writer and no reader, or readers and no writer";
-// N1 ties writeWaiting to the registered waiting writers (writer preference, and "a cancelled waiter
-// leaves no trace"); TB1..TB3 say that every change that can make a waiter grantable broadcasts.
+// N1 ties writeWaiting to the registered waiting writers; a read grant happens only in a critical section
+// that ends with no registered waiting writer (writer preference); a failed Lock leaves its cell
+// unregistered ("a cancelled waiter leaves no trace"); TB1..TB3 say that every change that can make a waiter grantable broadcasts.
 //
 //@ ghostmap rmx: ref -> ref once
 //@ ghostmap rmxt: ref -> ref once
@@ -181,7 +182,7 @@ package csync
 //@   ghost init status: rmode(status) := ite(write, 2, 1)
 //@   ensures held: result1 == nil ==> aint(status) == 1 && rgrant(status) == m
 //@   ensures fn: result1 == nil ==> result0 != nil
-//@   ensures failed: result1 != nil ==> result1 == context.Canceled && cancelled(ctx) && !written(m.nreaders) && !written(m.writing) && rgrant(status) == nil
+//@   ensures failed: result1 != nil ==> result1 == context.Canceled && cancelled(ctx) && !written(m.nreaders) && !written(m.writing) && rgrant(status) == nil && !m.waiters[status]
 //@   loop 1 invariant waiting: aint(status) == 0 && !written(m.nreaders) && !written(m.writing) && rmx(status) == m && rmode(status) == ite(write, 2, 1) && rreg(status)
 //@   loop 1 invariant parked: waitCh != nil && issuedBy(waitCh) == m.bcast && gettime(waitCh) == lastcs()
 //@   assert select 1: selects(waitCh) && selects(done(ctx)) && waitCh != nil && issuedBy(waitCh) == m.bcast && gettime(waitCh) == lastcs()
@@ -195,6 +196,7 @@ package csync
 //@   ghost exit: m.waiters := ite(write && aint(status) == 0, add(m.waiters, status), m.waiters)
 //@   ghost exit: rreg(status) := true
 //@   assert exit: aint(status) != 1 ==> waitCh != nil && waitCh == m.bcast.ch && ite(write, m.nreaders != 0 || m.writing, m.writing || m.writeWaiting != 0)
+//@   assert exit: aint(status) == 1 && !write ==> m.writeWaiting == 0 && card(m.waiters) == 0
 //
 //@ closure (*RWMutex).Lock$3
 //@   props C01 C02
@@ -204,6 +206,7 @@ package csync
 //@   ghost atomic 2: rgrant(status) := m
 //@   ghost atomic 2: m.readers := add(m.readers, status)
 //@   assert exit: aint(status) != 1 ==> waitCh != nil && waitCh == m.bcast.ch && ite(write, m.nreaders != 0 || m.writing, m.writing || m.writeWaiting != 0)
+//@   assert exit: aint(status) == 1 && !write ==> m.writeWaiting == 0 && card(m.waiters) == 0
 //
 //@ func (*RWMutex).Lock$2
 //@   props C01 C02
@@ -240,6 +243,7 @@ package csync
 //
 //@ closure (*RWMutex).TryLock$1
 //@   props C01 C02
+//@   assert exit: !abool(unlocked) && !write ==> m.writeWaiting == 0
 //@   ghost exit: rmxt(unlocked) := ite(abool(unlocked), rmxt(unlocked), m)
 //@   ghost exit: rmode(unlocked) := ite(abool(unlocked), rmode(unlocked), ite(write, 2, 1))
 //@   ghost exit: rgrant(unlocked) := ite(abool(unlocked), rgrant(unlocked), m)
